@@ -18,6 +18,7 @@ type Env struct {
 	pkg   *types.Package
 	depth int
 	allocOld string
+	assuming bool // the expression is being assumed (callee postcondition), not proved
 }
 
 var tBool = types.Typ[types.Bool]
@@ -542,6 +543,12 @@ func (e *Env) call(n ECall) *Val {
 	case "fresh":
 		v := arg(0)
 		return boolVal("(>= " + v.A[0] + " " + e.allocOld + ")")
+	case "wf": // slice header sanity
+		v := arg(0)
+		if len(v.A) != 4 {
+			e.fail("wf needs a slice")
+		}
+		return boolVal(and("(<= 0 "+v.A[1]+")", "(<= 0 "+v.A[2]+")", "(<= "+v.A[2]+" "+v.A[3]+")", "(<= 0 "+v.A[0]+")", implies(eq(v.A[0], "0"), and(eq(v.A[2], "0"), eq(v.A[3], "0")))))
 	case "wasAllocated":
 		v := arg(0)
 		return boolVal("(isold " + v.A[0] + " " + e.allocOld + ")")
@@ -607,6 +614,33 @@ func (e *Env) call(n ECall) *Val {
 			parts = append(parts, "(forall (("+x+" Int)) (! (=> "+not(in)+" (= (select "+cur+" "+x+") (select "+old+" "+x+"))) :pattern ((select "+cur+" "+x+"))))")
 		}
 		return boolVal(and(parts...))
+	case "permOf": // permOf(s): the elements of s are a rearrangement of the elements old(s) had (assume-only)
+		if !e.assuming {
+			e.fail("permOf may only appear in assumed (trusted/extern) postconditions")
+		}
+		sv := arg(0)
+		sl, ok := sv.T.Underlying().(*types.Slice)
+		if !ok {
+			e.fail("permOf needs a slice")
+		}
+		e.tr.n++
+		pf := fmt.Sprintf("perm!%d", e.tr.n)
+		e.tr.emit("(declare-fun " + pf + " (Int) Int)")
+		a := fmt.Sprintf("qp_%d", e.tr.n)
+		in := func(x string) string {
+			return and("(< "+x+" 0)", eq("(elemB "+x+")", sv.A[0]), "(<= "+sv.A[1]+" (elemI "+x+"))", "(< (elemI "+x+") (+ "+sv.A[1]+" "+sv.A[2]+"))")
+		}
+		var eqs []string
+		var pat string
+		for _, c := range e.tr.W.cellComps(sl.Elem()) {
+			cur := e.tr.cur(e.st, c)
+			old := e.tr.cur(e.old, c)
+			eqs = append(eqs, eq(sel(cur, a), sel(old, "("+pf+" "+a+")")))
+			if pat == "" {
+				pat = sel(cur, a)
+			}
+		}
+		return boolVal("(forall ((" + a + " Int)) (! (=> " + in(a) + " (and " + in("("+pf+" "+a+")") + " " + and(eqs...) + ")) :pattern (" + pat + ")))")
 	case "unchangedHeap":
 		return boolVal(e.tr.unchangedHeap(e.st, e.old, nil, e.allocOld))
 	case "cnt":
